@@ -462,12 +462,89 @@ func (c *Ctx) locksetException(a fieldAccess, target *types.Named, mutex string)
 					}
 				}
 			}
-			if okAll && spawners > 0 && !reachesGoFn(c, a.fn) {
+			if okAll && spawners > 0 && !reachesGoFn(c, a.fn) && !c.calledInLoop(caller, 0, map[*ssa.Function]bool{}) {
 				return "E-PREFORK: " + c.M.Key(a.fn) + " has a single call site in " + c.M.Key(caller) + ", which dominates every call that can start a goroutine; no concurrent writer exists yet (re-verified)", true
 			}
 		}
 	}
+	// E-PREFORK, the access itself: it sits in the function that starts the session's goroutines, and dominates every
+	// call of that function that can start one (the value is read there and handed to a helper as an argument).
+	if a.in != nil && a.fn.Parent() == nil {
+		okAll := true
+		spawners := 0
+		for _, b := range a.fn.Blocks {
+			for _, in := range b.Instrs {
+				ci, ok := in.(ssa.CallInstruction)
+				if !ok {
+					continue
+				}
+				if _, isDefer := in.(*ssa.Defer); isDefer {
+					continue
+				}
+				reachesGo := false
+				if _, isGo := in.(*ssa.Go); isGo {
+					reachesGo = true
+				}
+				for _, callee := range c.M.Callees(ci.Common()) {
+					for f := range c.M.Reachable([]*ssa.Function{callee}, nil) {
+						if hasGo(f) {
+							reachesGo = true
+						}
+					}
+				}
+				if reachesGo {
+					spawners++
+					if !instrDominates(a.in, in) {
+						okAll = false
+					}
+				}
+			}
+		}
+		if okAll && spawners > 0 && len(sites) == 1 && !c.calledInLoop(a.fn, 0, map[*ssa.Function]bool{}) {
+			return "E-PREFORK: the access in " + c.M.Key(a.fn) + " dominates every call of that function that can start a goroutine, and the function has a single call site; no concurrent writer exists yet (re-verified)", true
+		}
+	}
 	return "", false
+}
+
+// calledInLoop: some call site of fn - or of a function it is called from, up to four levels, closures counted with the
+// function that makes them - lies inside a loop: fn can run more than once in a session, so "before the goroutines are
+// started" says nothing about its later runs.
+func (c *Ctx) calledInLoop(fn *ssa.Function, depth int, seen map[*ssa.Function]bool) bool {
+	if seen[fn] || depth > 4 {
+		return false
+	}
+	seen[fn] = true
+	if fn.Parent() != nil {
+		// a closure runs where it is made / started: look at the instruction that makes it
+		for _, b := range fn.Parent().Blocks {
+			for _, in := range b.Instrs {
+				if mc, ok := in.(*ssa.MakeClosure); ok && mc.Fn == ssa.Value(fn) && blockInLoop(b) {
+					return true
+				}
+			}
+		}
+		return c.calledInLoop(fn.Parent(), depth+1, seen)
+	}
+	for _, g := range c.M.Funcs {
+		for _, b := range g.Blocks {
+			for _, in := range b.Instrs {
+				ci, ok := in.(ssa.CallInstruction)
+				if !ok {
+					continue
+				}
+				for _, callee := range c.M.Callees(ci.Common()) {
+					if callee != fn {
+						continue
+					}
+					if blockInLoop(b) || c.calledInLoop(g, depth+1, seen) {
+						return true
+					}
+				}
+			}
+		}
+	}
+	return false
 }
 
 func hasGo(f *ssa.Function) bool {
